@@ -21,7 +21,8 @@ try:
         print('PATCH FAILED', p.stdout)
         sys.exit(2)
     if '--no-suite' not in sys.argv:
-        p = subprocess.run(['/venv/bin/python', os.path.join(VERIF, 'tools', 'baseline.py'), d], stdout=subprocess.PIPE, stderr=subprocess.STDOUT, text=True)
+        p = subprocess.run(['/venv/bin/python', os.path.join(VERIF, 'tools', 'baseline.py'), d], env=dict(os.environ, BASELINE_NETNS='1'),
+                           stdout=subprocess.PIPE, stderr=subprocess.STDOUT, text=True)
         res['suite'] = p.stdout.strip().splitlines()[-1] if p.returncode == 0 else 'FAILED: ' + p.stdout[-600:]
         print('suite on changed tree:', res['suite'])
     env = dict(os.environ, PYTHONPATH=f'{d}/src:{d}/tests')
